@@ -132,6 +132,18 @@ def cases(ctx):
     yield ("scn", specs, initial, hist, wait,
            rng.choice(["close", "close", "with", "close2"]),
            rng.getrandbits(32), rng.choice([0.0, 0.0, 0.5, 0.8, 0.95]), False)
+  for _ in ctx.loop(400, 60000):
+    specA, specB = rspec(rng), ("finite", rng.randint(1, 30), rng.randint(1, 6),
+                                1)
+    yield ("two", specA, specB, rng.choice(["A-first", "B-first"]),
+           rng.randint(0, 12), rng.getrandbits(32), rng.choice([0.0, 0.5, 0.9]))
+  for _ in ctx.loop(400, 60000):
+    wait = rng.random() < 0.4
+    specs = [("finite", rng.randint(0, 20), rng.randint(1, 6), 1)
+             for _ in range(rng.randint(0, 2))]
+    yield ("conc", specs, ("finite", rng.randint(0, 16), rng.randint(1, 5), 1),
+           wait, rng.randint(0, 8), rng.getrandbits(32),
+           rng.choice([0.0, 0.5, 0.9]))
   for _ in ctx.loop(240, 24000):
     wait = rng.random() < 0.45
     nplayers = rng.randint(1, 3)
@@ -249,10 +261,119 @@ def run_free(ctx, case):
   return judge(ctx, case, specs, stopped, wait, flow)
 
 
+def run_special(ctx, case):
+  """Two extra scenario families under the controlled scheduler:
+  ("two", specA, specB, order, idle, sseed, stick): two managers alive at the
+      same time - closing one must not touch the other's players;
+  ("conc", specs, new_spec, wait, idle, sseed, stick): a second control thread
+      calls AudioIO.play while the main thread closes the manager - the call
+      either raises or its player is shut down by that close."""
+  kind = case[0]
+  sseed, stick = case[-2], case[-1]
+  rng = random.Random(sseed)
+
+  def chooser(enabled, cur):
+    if stick and cur in enabled and rng.random() < stick:
+      return cur
+    return enabled[rng.randrange(len(enabled))]
+
+  S.FakePyAudio.instances[:] = []
+  flows = []
+  outcome = {}
+  h = S.Harness(lazy_io, chooser, MAX_STEPS, False)
+  with h:
+    sch = h.sched
+    if kind == "two":
+      _, specA, specB, order, idle = case[:5]
+      aioA, aioB = lazy_io.AudioIO(False), lazy_io.AudioIO(True)
+      for aio, spec in ((aioA, specA), (aioB, specB)):
+        aio.play(make_iterable(spec), chunk_size=spec[2], channels=spec[3])
+      for _ in range(idle):
+        sch.switch("idle")
+      for aio in ((aioA, aioB) if order == "A-first" else (aioB, aioA)):
+        aio.close()
+        flows.append((aio, aio._pa.terminated))
+    else:
+      _, specs, new_spec, wait, idle = case[:5]
+      aio = lazy_io.AudioIO(wait)
+      for spec in specs:
+        aio.play(make_iterable(spec), chunk_size=spec[2], channels=spec[3])
+
+      def second_control_thread():
+        try:
+          aio.play(make_iterable(new_spec), chunk_size=new_spec[2],
+                   channels=new_spec[3])
+          outcome["play"] = "accepted"
+        except RuntimeError:
+          outcome["play"] = "raised"
+      st2 = h.spawn("control2", second_control_thread)
+      for _ in range(idle):
+        sch.switch("idle")
+      aio.close()
+      flows.append((aio, aio._pa.terminated))
+      sch.switch("join control2", pred=lambda: st2.status == "done",
+                 blocked_on="join control2")
+    drained = False
+    for _ in range(400):
+      if sch.all_others_done(h.main):
+        drained = True
+        break
+      sch.switch("drain")
+  sch = h.sched
+  ctx.count("scenarios")
+  ctx.count("special:" + kind)
+  ctx.count("steps", sch.steps)
+  sig = hash(tuple(sch.choices))
+  if sig not in ctx.seen_interleavings:
+    ctx.seen_interleavings.add(sig)
+    ctx.count("distinct-interleavings")
+  if h.os_threads_stuck:
+    ctx.count("harness_errors")
+    return True
+  if sch.aborted in ("deadlock", "step-bound"):
+    ctx.violation("%s/%s-scenario" % (sch.aborted, kind), case,
+                  threads=getattr(sch, "abort_state", None),
+                  tail=getattr(sch, "tail", [])[-40:])
+    return True
+  if h.thread_errors:
+    ctx.violation("player-thread-exception", case, errors=h.thread_errors)
+    return True
+  if not drained:
+    ctx.violation("player-alive-after-close", case)
+    return True
+  if kind == "two":
+    pas = S.FakePyAudio.instances
+    if len(pas) != 2:
+      ctx.violation("backend/instances", case, n=len(pas))
+      return True
+    for (aio, term), spec, wait in zip(
+        sorted(flows, key=lambda f: pas.index(f[0]._pa)),
+        (case[1], case[2]), (False, True)):
+      flow = {"terminated_at_close": [term], "play_after_close": "raised"}
+      judge(ctx, case, [spec], set(), wait and spec[0] == "finite", flow,
+            pa=aio._pa)
+    return True
+  aio, term = flows[0]
+  specs_all = list(case[1])
+  if outcome.get("play") == "accepted":
+    ctx.count("concurrent-play:accepted")
+    specs_all.append(case[2])
+  else:
+    ctx.count("concurrent-play:" + str(outcome.get("play")))
+  flow = {"terminated_at_close": [term], "play_after_close": "raised"}
+  # nobody was stopped by the history, but close(wait=False) stops them all
+  judge(ctx, case, specs_all, set(range(len(specs_all))) if not case[3]
+        else set(i for i, sp in enumerate(specs_all) if sp[0] == "endless"),
+        case[3], flow, pa=aio._pa)
+  return True
+
+
 # ----------------------------------------------------------------------------
 def run_case(ctx, case):
   if case[0] == "free":
     return run_free(ctx, case)
+  if case[0] in ("two", "conc"):
+    return run_special(ctx, case)
   _, specs, initial, hist, wait, style, sseed, stick, line = case
   rng = random.Random(sseed)
 
@@ -330,13 +451,14 @@ def run_case(ctx, case):
   return judge(ctx, case, specs, stopped, wait, flow)
 
 
-def judge(ctx, case, specs, stopped, wait, flow):
+def judge(ctx, case, specs, stopped, wait, flow, pa=None):
   # ---- device log verdicts -----------------------------------------------------
-  pas = S.FakePyAudio.instances
-  if len(pas) != 1:
-    ctx.violation("backend/instances", case, n=len(pas))
-    return True
-  pa = pas[0]
+  if pa is None:
+    pas = S.FakePyAudio.instances
+    if len(pas) != 1:
+      ctx.violation("backend/instances", case, n=len(pas))
+      return True
+    pa = pas[0]
   if flow["terminated_at_close"] != [1] or pa.terminated != 1:
     ctx.violation("backend/terminate-count", case, at_close=
                   flow["terminated_at_close"], final=pa.terminated)
@@ -397,6 +519,10 @@ def judge(ctx, case, specs, stopped, wait, flow):
 def finish(ctx):
   ctx.need("scenarios", 500)
   ctx.need("free-running-scenarios", 100)
+  ctx.need("special:two", 100)
+  ctx.need("special:conc", 100)
+  ctx.need("concurrent-play:accepted", 10)
+  ctx.need("concurrent-play:raised", 10)
   ctx.need("distinct-interleavings", 400)
   ctx.need("chunks-received", 2000)
   for op in ["idle", "pause", "resume", "stop", "play"]:
